@@ -69,6 +69,9 @@ func c05ArmReader(r *link.Reader) {
 
 var allocSample = []metrics.Sample{{Name: "/gc/heap/allocs:bytes"}}
 
+// c05Room: a worker's large receive buffer (see the UnmarshalBinary section)
+var c05Room []byte
+
 func heapAllocs() uint64 {
 	metrics.Read(allocSample)
 	return allocSample[0].Value.Uint64()
@@ -311,12 +314,40 @@ func runC05(c *sim.Ctx) *sim.Violation {
 		}
 		body := rest[h:end]
 		typ := rest[0] >> 4
+		// one time in eight the body is the front of a receive buffer of several
+		// megabytes (len = the body, cap = the buffer): what decoding costs is
+		// measured against the body's length, whatever lies behind it
+		roomy := t.Bool(1, 8)
+		if roomy {
+			if c05Room == nil {
+				c05Room = make([]byte, 8<<20)
+			}
+			body = c05Room[:copy(c05Room, body)]
+			c.Count("probe.UnmarshalBinary-on-the-front-of-an-8MiB-buffer")
+		}
 		for _, p := range []mq.Packet{drv.Zero(typ), freshFor(rest[0], t)} {
 			c05Arm(len(body))
 			var uerr error
+			a0 := heapAllocs()
 			pi := sim.Guard(func() { uerr = p.UnmarshalBinary(body) })
+			alloc := heapAllocs() - a0
 			budget := c05Budget
 			c05Disarm()
+			if limit := uint64(256*len(body) + 64<<10); pi == nil && alloc > limit {
+				// re-measure three times on fresh receivers; all must exceed
+				ex := 0
+				for j := 0; j < 3; j++ {
+					q := drv.Zero(typ)
+					b0 := heapAllocs()
+					sim.Guard(func() { q.UnmarshalBinary(body) })
+					if heapAllocs()-b0 > limit {
+						ex++
+					}
+				}
+				if ex == 3 {
+					return sim.V(fmt.Sprintf("C05/%T.UnmarshalBinary/alloc", p), "decoding a body of %d bytes (a slice with capacity %d) allocated %d bytes (> 256n+64KiB)\n%T.UnmarshalBinary(%s)", len(body), cap(body), alloc, p, hexs(body))
+				}
+			}
 			if c05Steps > c05Max {
 				c05Max = c05Steps
 			}
